@@ -87,6 +87,11 @@ impl Registry {
         if let Some(base_unit) = self.base_units.get(name) {
             return Some(base_unit.to_string());
         }
+        // Quantities are recorded in `definitions` as well, but they
+        // aren't units, and lookup doesn't treat them as such.
+        if !self.units.contains_key(name) {
+            return None;
+        }
         if let Some(expr) = self.definitions.get(name) {
             if let Expr::Unit { ref name } = *expr {
                 if let Some(canonicalized) = self.canonicalize(&*name) {
